@@ -32,7 +32,7 @@ type jcsCase struct {
 }
 
 // the same alphabet as Jcs.tla!Units
-var jcsUnits = [][]uint16{{}, {97}, {97, 97}, {98}, {34}, {92}, {47}, {0}, {31}, {127}, {128}, {246}, {8364}, {64307}, {55357, 56832}, {65}, {49}, {10}, {97, 0}}
+var jcsUnits = [][]uint16{{}, {97}, {97, 97}, {98}, {34}, {92}, {47}, {0}, {31}, {127}, {128}, {246}, {8364}, {64307}, {55357, 56832}, {65}, {49}, {10}, {97, 0}, {65533}, {65535}, {55295}, {57344}}
 
 func unitsString(u []uint16) string { return string(utf16.Decode(u)) }
 
@@ -317,6 +317,32 @@ func C07(c *ev.Ctx) {
 			check(fmt.Sprintf("string-spelling:name%d", id+1), `{"k":`+sp+`}`, `{"k":`+want+`}`)
 		}
 	}
+	// every BMP code unit on its own: escaped (upper / lower case hex) and raw spelling give the same minimal form;
+	// a lone surrogate is rejected; plus every code unit paired with a low surrogate behind a high one
+	for cu := 0; cu <= 0xFFFF; cu++ {
+		u := []uint16{uint16(cu)}
+		if cu >= 0xD800 && cu <= 0xDFFF {
+			check("bmp-sweep:lone-surrogate", fmt.Sprintf(`["\u%04x"]`, cu), "error")
+			continue
+		}
+		want := "[" + canonSpelling(unitsString(u)) + "]"
+		check("bmp-sweep:escaped", fmt.Sprintf(`["\u%04x"]`, cu), want)
+		if cu%16 == 13 || cu >= 0xFF00 || cu < 0x100 {
+			check("bmp-sweep:escaped-upper", fmt.Sprintf(`["\u%04X"]`, cu), want)
+			name := canonSpelling(unitsString(u))
+			switch {
+			case cu == 'a':
+				check("bmp-sweep:member-name", fmt.Sprintf(`{"\u%04x":1,"a":2}`, cu), "error")
+			case cu < 'a':
+				check("bmp-sweep:member-name", fmt.Sprintf(`{"a":2,"\u%04x":1}`, cu), `{`+name+`:1,"a":2}`)
+			default:
+				check("bmp-sweep:member-name", fmt.Sprintf(`{"\u%04x":1,"a":2}`, cu), `{"a":2,`+name+`:1}`)
+			}
+		}
+		if cu >= 0x20 && cu != '"' && cu != '\\' {
+			check("bmp-sweep:raw", `["`+unitsString(u)+`"]`, want)
+		}
+	}
 	for _, v := range appendixB {
 		check("appendix-b:"+v[0], "["+v[0]+"]", "["+v[1]+"]")
 		check("appendix-b:"+v[0], `{"n": `+v[0]+` }`, `{"n":`+v[1]+`}`)
@@ -338,7 +364,7 @@ func C07(c *ev.Ctx) {
 	c.Cov.Evaluations = evals
 	c.Cov.DistinctNontrivial = nt
 	c.Cov.Exhaustive = true
-	c.Cov.Rule = "Jcs.tla: (keys) every set of 2..MaxKeys member names over a 19-name alphabet (empty, prefixes, quote, backslash, slash, U+0000, U+001F, U+007F, U+0080, BMP, U+FB33 vs U+1F600) sorted by UTF-16 code units; each realised in several input orders x name spellings (literal, \\uXXXX upper/lower, short escapes) x whitespace, also nested; (number) ECMAScript layout for every digit string of <= MaxDigits digits x 37 decimal exponents x sign, each with re-spellings (E+, trailing .0, shifted exponent, plain decimal expansion); (malformed) 21 rejection classes (one of them: each of the 30 non-whitespace control characters at each of 12 token boundaries). Plus every alphabet string as a value in every spelling, the RFC 8785 Appendix B vectors with re-spellings, fixed-point and parse-equality on every accepted input, value path vs bytes path. NOT covered: digit generation for arbitrary doubles (see DESIGN 9)."
+	c.Cov.Rule = "Jcs.tla: (keys) every set of 2..MaxKeys member names over a 23-name alphabet (empty, prefixes, quote, backslash, slash, U+0000, U+001F, U+007F, U+0080, BMP, U+FB33 vs U+1F600, U+FFFD, U+FFFF, U+D7FF, U+E000) sorted by UTF-16 code units; each realised in several input orders x name spellings (literal, \\uXXXX upper/lower, short escapes) x whitespace, also nested; (number) ECMAScript layout for every digit string of <= MaxDigits digits x 37 decimal exponents x sign, each with re-spellings (E+, trailing .0, shifted exponent, plain decimal expansion); (malformed) 21 rejection classes (one of them: each of the 30 non-whitespace control characters at each of 12 token boundaries). Plus every alphabet string as a value in every spelling, the RFC 8785 Appendix B vectors with re-spellings, fixed-point and parse-equality on every accepted input, value path vs bytes path. NOT covered: digit generation for arbitrary doubles (see DESIGN 9)."
 	c.Assume = append(c.Assume, "shortest round-trip digit generation of IEEE-754 doubles is arithmetic and outside the specification; it is exercised only through the Appendix B vectors and <= 3-digit values")
 	c.Finish("model_checking")
 }
